@@ -472,7 +472,7 @@ func c15(c *wk.Ctx) {
 // events seen on one connection for that identifier are: nothing (the service never became ready) or
 // exactly one serviceAdded followed by exactly one serviceRemoved.
 func c15race(c *wk.Ctx) {
-	c.Cases("race", c.Pick(40, 4000), func(i int, rng *rand.Rand) {
+	c.Cases("race", c.Pick(120, 4000), func(i int, rng *rand.Rand) {
 		w, err := newWorld("unix", nil)
 		if err != nil {
 			c.Inconclusive("race", i, "world: "+err.Error())
@@ -830,7 +830,7 @@ var c15model = porcupine.Model{
 }
 
 func c15conc(c *wk.Ctx) {
-	c.Cases("conc", c.Pick(500, 60000), func(i int, rng *rand.Rand) {
+	c.Cases("conc", c.Pick(1800, 60000), func(i int, rng *rand.Rand) {
 		w, err := newWorld("unix", nil)
 		if err != nil {
 			c.Inconclusive("conc", i, "world: "+err.Error())
